@@ -529,12 +529,57 @@ func profile(known map[string]string) hist.Profile {
 		},
 		ReorderDisable: !reorderListed,
 		Cosmetics:      true,
+		ChainOneIn:     2,
 	}
+}
+
+// shapesOf names the end-to-end shapes of HEAD files relative to their origin:
+//
+//	samebytes-moved    bytes identical to the base version, other path
+//	samebytes-touched  bytes identical to the base version, same path, but the branch renamed /
+//	                   deleted+re-created / edited+reverted the file on the way
+//	samerules-newbytes same path, other bytes, identical rules (comment/whitespace-only difference)
+func shapesOf(h hist.History) []string {
+	var out []string
+	fork := h.Fork()
+	for _, tr := range h.Ledger() {
+		o := tr.Origins[0].Path
+		if o == "" {
+			continue
+		}
+		bf, _ := fork.Get(o)
+		hf, _ := h.Head().Get(tr.Path)
+		var shape string
+		switch {
+		case bf.Text == hf.Text && o != tr.Path:
+			shape = "samebytes-moved"
+		case bf.Text == hf.Text && tr.Touched > 0:
+			shape = "samebytes-touched"
+		case bf.Text != hf.Text && o == tr.Path && reflect.DeepEqual(bf.File.DisableSet(), hf.File.DisableSet()):
+			a, b := []string{}, []string{}
+			for _, r := range bf.File.Rules() {
+				a = append(a, r.ContentKey())
+			}
+			for _, r := range hf.File.Rules() {
+				b = append(b, r.ContentKey())
+			}
+			sort.Strings(a)
+			sort.Strings(b)
+			if reflect.DeepEqual(a, b) {
+				shape = "samerules-newbytes"
+			}
+		}
+		if shape != "" && !has(out, shape) {
+			out = append(out, shape)
+		}
+	}
+	sort.Strings(out)
+	return out
 }
 
 func flagsOf(c Case) []string {
 	h := c.History
-	fl := []string{}
+	fl := shapesOf(h)
 	for _, tr := range h.Ledger() {
 		if tr.Renamed && !has(fl, "renamed") {
 			fl = append(fl, "renamed")
@@ -555,7 +600,7 @@ func flagsOf(c Case) []string {
 	if usesOp(h, "file-del") {
 		fl = append(fl, "filedel")
 	}
-	for _, op := range []string{"revert", "cosmetic", "rule-add", "rule-mod", "rule-del", "rule-dup", "rule-swap", "filectl-add", "filectl-del", "filectl-swap"} {
+	for _, op := range []string{"chain-rename", "chain-rename-back", "chain-edit", "chain-revert", "chain-readd", "chain-cosmetic", "chain-cosmetic-revert", "revert", "cosmetic", "rule-add", "rule-mod", "rule-del", "rule-dup", "rule-swap", "filectl-add", "filectl-del", "filectl-swap"} {
 		if usesOp(h, op) {
 			fl = append(fl, op)
 		}
@@ -582,7 +627,7 @@ func classOf(c Case) string {
 	var keep []string
 	for _, f := range flagsOf(c) {
 		switch f {
-		case "renamed", "rename+edit", "newfile", "filedel", "readded", "main+", "bin":
+		case "renamed", "rename+edit", "newfile", "filedel", "main+", "samebytes-moved", "samebytes-touched", "samerules-newbytes":
 			keep = append(keep, f)
 		}
 	}
